@@ -60,6 +60,8 @@ func runLine(line string) core.Outcome {
 		return runCA(line, f[1])
 	case "as":
 		return runAS(line, f[1])
+	case "fs":
+		return runFS(line, f[1])
 	}
 	return core.Outcome{Impl: "bad-op"}
 }
@@ -75,6 +77,15 @@ func safeRunLine(line string) (o core.Outcome) {
 }
 
 var modes = []string{"cb", "ca", "fb", "fa"}
+
+// seedParity: 0 or 1, fixed for one run (derived once from the run's generator)
+var parityOnce sync.Once
+var parity uint64
+
+func seedParity(rng *core.Rand) uint64 {
+	parityOnce.Do(func() { parity = rng.Fork().U64() % 2 })
+	return parity
+}
 
 func caFault(rng *core.Rand, maxK int) string {
 	return fmt.Sprintf("%d%s", 1+rng.Intn(maxK), modes[rng.Intn(4)])
@@ -96,7 +107,7 @@ func (prop) Generate(rng *core.Rand, tier string, emit0 func(string)) {
 		var todo []string
 		seen := map[string]bool{}
 		for _, l := range lines {
-			if strings.HasPrefix(l, "as ") && !seen[l] {
+			if (strings.HasPrefix(l, "as ") || strings.HasPrefix(l, "fs ")) && !seen[l] {
 				seen[l] = true
 				todo = append(todo, l)
 			}
@@ -136,7 +147,7 @@ func (prop) Generate(rng *core.Rand, tier string, emit0 func(string)) {
 			emit0(l)
 		}
 	}()
-	nCA, nAS, nFaultAS := 1400, 70, 40
+	nCA, nAS, nFaultAS := 1100, 70, 40
 	switch tier {
 	case "thorough":
 		nCA, nAS, nFaultAS = 30000, 500, 300
@@ -251,6 +262,50 @@ func (prop) Generate(rng *core.Rand, tier string, emit0 func(string)) {
 		emit("ca " + strings.Join(evs, ";"))
 	}
 
+	// ---- the CA on the real certmagic.FileStorage (child processes under strace): every one of the
+	// 26 file operations of the creation (2 reads, 4 Stores of 6 operations) killed / failing with
+	// EIO, then an uninterrupted restart; the same for a reload, a renewing start-up and a second
+	// interruption, sampled in the quick tier
+	step := 5
+	if tier == "thorough" {
+		step = 1
+	}
+	for k := 1; k <= 27; k++ {
+		emit(fmt.Sprintf("fs l:K%d;l:-", k))
+		if step == 1 || k%2 == int(seedParity(rng)) || k >= 26 {
+			emit(fmt.Sprintf("fs l:F%d;l:-", k))
+		}
+	}
+	rfs := rng.Fork()
+	for k := 1 + rfs.Intn(step); k <= 41; k += step {
+		ft := rfs.Pick([]string{"K", "F"})
+		emit(fmt.Sprintf("fs s:%s%d;l:-;s:-", ft, k))     // creation + immediate renewal
+		emit(fmt.Sprintf("fs s:-;l:%s%d;l:-;l:-", ft, k)) // reload + renewal of an existing chain
+	}
+	for k := 1 + rfs.Intn(step); k <= 26; k += step {
+		emit(fmt.Sprintf("fs l:K10;l:%s%d;l:-", rfs.Pick([]string{"K", "F"}), k)) // a second interruption
+		emit(fmt.Sprintf("fs l:F21;s:%s%d;l:-", rfs.Pick([]string{"K", "F"}), k))
+	}
+	emit("fs l:-;l:-;s:-;l:-")
+	nFS := 3
+	if tier == "thorough" {
+		nFS = 150
+	} else if tier == "search" {
+		nFS = 20
+	}
+	for c := 0; c < nFS; c++ {
+		var evs []string
+		for i, n := 0, 1+rfs.Intn(4); i < n; i++ {
+			f := "-"
+			if rfs.Chance(2, 3) {
+				f = fmt.Sprintf("%s%d", rfs.Pick([]string{"K", "F"}), 1+rfs.Intn(40))
+			}
+			evs = append(evs, life(rfs, 2, 5)+":"+f)
+		}
+		evs = append(evs, "l:-")
+		emit("fs " + strings.Join(evs, ";"))
+	}
+
 	// ---- autosave, systematic: persistence on/off/default, rejected loads, unchanged config,
 	// forced reload, @id, null config, restarts
 	emit("as L1:d:-;L1:d:-;L1:df:-;L2:p:-;L3:n:-;L3:n:-;L4:px:-;L5:dy:-;L6:dj:-;L7:di:-;R;L7:di:-;L8:n:-;R;L9:d:-")
@@ -341,7 +396,7 @@ func (prop) Generate(rng *core.Rand, tier string, emit0 func(string)) {
 	// ---- malformed
 	bad := []string{"ca", "ca ", "ca x", "ca l", "ca l:", "ca l:0cb", "ca l:3xx", "ca m:-", "ca l:-;", "ca l:-;;l:-", "ca l:-3cb", "ca m", "ca m:", "ca m:0cb", "ca m:-:-", "ca d:xx", "ca c:rc", "ca c:rc>zz", "ca d:", "ca c:rc>rk>ik",
 		"as", "as L", "as L1", "as L1:d", "as L1:q:-", "as L1:d:K0", "as L1:d:X1", "as L1:dd:-", "as Lx:d:-", "as R;", "as L1:d:K1;L2:d:F1", "as U:", "as u", "as L1:d:-;UU",
-		"zz l:-", "ca l:- extra", "as L1:dff:-", "ca l:1cb:2", "as L1:d:-:3"}
+		"fs", "fs l", "fs l:K0", "fs l:X1", "fs m:-", "fs l:-;", "fs l:3cb", "zz l:-", "ca l:- extra", "as L1:dff:-", "ca l:1cb:2", "as L1:d:-:3"}
 	for _, b := range bad {
 		emit(b)
 	}
